@@ -39,6 +39,12 @@ void ezc3d::ParametersNS::GroupNS::Group::write(std::fstream &f, int groupIdx, s
         return;
     }
 
+    // The lengths are stored on one byte each (and the sign of the name length is the lock flag)
+    if (name().size() > 127)
+        throw std::range_error("The name of the group " + name() + " is too long to be written in a c3d file (127 characters at most)");
+    if (description().size() > 255)
+        throw std::range_error("The description of the group " + name() + " is too long to be written in a c3d file (255 characters at most)");
+
     int nCharName(static_cast<int>(name().size()));
     if (isLocked())
         nCharName *= -1;
